@@ -220,20 +220,24 @@ def attach(spec, ref, probes):
     return spec
 
 
-def gen_sweep_base(seed, corpus, ref, fam):
-    """Base spec of a focus sweep: two (sometimes three) clients running shuffled ops of ONE family; the
-    caller adds one run per contended function with strategy 'focus' on it."""
-    rng = random.Random('C20/SWEEP/%d/%s' % (seed, fam))
-    lst = corpus['families'][fam]
-    ops = rng.sample(lst, min(len(lst), 8))
+def gen_sweep_base(seed, corpus, ref, fam, fam2=None):
+    """Base spec of a focus sweep: two (sometimes three) clients running shuffled ops of ONE family -- or, with fam2, of two
+    members of one family class alternately (the same code under two dialects / catalogs at the same time); the caller
+    adds one run per contended function with strategy 'focus' on it."""
+    rng = random.Random('C20/SWEEP/%d/%s/%s' % (seed, fam, fam2))
+    pools = []
+    for f in ([fam] if fam2 is None else [fam, fam2]):
+        lst = _light_ops(corpus['families'][f]) if QUICK[0] else corpus['families'][f]
+        pools.append(rng.sample(lst, min(len(lst), 8)))
     ncl = _weighted(rng, [(2, 8), (3, 2)])
     clients = []
-    for _ in range(ncl):
-        perm = list(ops)
+    for i in range(ncl):
+        perm = list(pools[i % len(pools)])
         rng.shuffle(perm)
         clients.append(perm[:rng.randint(2, 4)])
     return {
-        'cmd': 'sim', 'property': 'C20', 'sub': 'S1', 'seed': seed, 'hashseed': hashseed_for(seed), 'families': [fam],
+        'cmd': 'sim', 'property': 'C20', 'sub': 'S1', 'seed': seed, 'hashseed': hashseed_for(seed),
+        'families': [fam] if fam2 is None else [fam, fam2],
         'clients': clients, 'gran': 'line', 'scope': ['repo'], 'cat_mode': 'shared', 'rnd_mode': 'shared', 'meta_share': True,
         'strategy': {'kind': 'focus'}, 'sched_seed': rng.randrange(1 << 30), 'faults': [], 'gcs_at': [],
     }
